@@ -1880,6 +1880,11 @@ func (s *PrintCtx) appendDurationSlice(z []time.Duration) {
 
 func (s *PrintCtx) appendTime(z time.Time) {
 	const layout = time.RFC3339Nano
+	if _, off := z.Zone(); off%60 != 0 {
+		// the layout has no room for the seconds of a zone offset
+		// (+00:19:32); the same instant in UTC is exact.
+		z = z.UTC()
+	}
 	if s.jsonMode || s.noColor {
 		s.pcAppendByte('"')
 		s.buf = z.AppendFormat(s.buf, layout)
